@@ -18,6 +18,16 @@ undo file layout with its own crc32c); e2undo's messages are never used for a ve
               and slack; outcome must be "refused and device untouched" (the only outcome
               accepted inside checksummed ranges) or "restored exactly"; foreign / stale undo
               files must be refused; `e2undo -n` on damaged files must not write.
+
+Violation keys name the located cause, not the seed: for a chain whose restore mismatches, the
+shortest failing prefix is searched by re-running prefixes and the key carries the culprit
+tool, whether that run wrote without touching its -z file, the offset class (none / aligned /
+unaligned to the undo block size), who changed hdr.fs_block_size within the chain, and whether
+the differing bytes are confined to the primary superblock.  A chain reports one root cause
+(plus any `-n` finding); image-file truncation by resize2fs is keyed separately and bytes
+beyond the truncation point are attributed to it.  A killed run whose undo file still says
+FINISHED (no new block was recorded before the kill, so the flag reset at reopen never reached
+the disk) is restored exactly and only counted (abend_killed_run_left_finished_flag).
 """
 import hashlib
 import json
@@ -42,9 +52,12 @@ NORMAL_RC = {"mke2fs": (0,), "tune2fs": (0,), "resize2fs": (0,), "debugfs": (0,)
 
 # ------------------------------------------------------------------ small helpers
 
+READ_CAP = 160 << 20     # a tool may extend the image file wildly (sparse); never slurp that
+
+
 def _read(path):
     with open(path, "rb") as f:
-        return f.read()
+        return f.read(READ_CAP)
 
 
 def _sha(b):
@@ -395,6 +408,16 @@ def gen_chain(seed, idx, bases, phase="chain"):
         ch["prep"] = prep
         for n in range(rng.choice([2, 3, 3])):
             steps.append(g_step(rng, m, st, n, ["tune2fs", "debugfs", "e2fsck", "tune2fs"]))
+        if rng.random() < .75:
+            # many scattered single-block writes -> many keys -> more than one key block
+            nblk = size // 1024
+            stride = rng.choice([2, 3, 5])
+            cnt = rng.randint(50, 140)
+            start = rng.randint(40, max(41, nblk - cnt * stride - 1))
+            lines = ["zap_block -p 0x%02x %d" % (rng.randrange(1, 255), start + i * stride)
+                     for i in range(cnt) if start + i * stride < nblk]
+            steps.insert(rng.randrange(len(steps) + 1),
+                         {"tool": "debugfs", "op": "scatter", "script": lines, "host": {}})
     elif kind == "minimkfs":
         size = rng.choice([1024, 1536]) * 1024
         ch["dev_size"] = size
@@ -583,6 +606,22 @@ def describe_mismatch(cur, before, orig_len, u, fs_off, trunc_at, allowed=None):
             "trunc_at": trunc_at, "len_now": len(cur), "orig_len": orig_len}
 
 
+def hdr_bs_change(records):
+    """records: per run {normal, wrote, fsbs}.  Who changed hdr.fs_block_size (the unit of
+    every key's block number) after the first recording run?"""
+    prev = None
+    who = "none"
+    for r in records:
+        bs = r.get("fsbs")
+        if not bs:
+            continue
+        if prev is not None and bs != prev and who == "none":
+            who = "a-run-that-failed-and-wrote-nothing" if (not r["normal"] and not r["wrote"]) \
+                else "a-writing-run"
+        prev = bs
+    return who
+
+
 def mm_where(mm):
     if mm["beyond_trunc_only"]:
         return "beyond-truncation"
@@ -714,6 +753,7 @@ def run_chain(cx, ch, nsteps=None, pool_dir=None, final=True):
         res["steps"].append({"tool": step["tool"], "op": step["op"], "rc": r.rc, "sig": r.sig,
                              "normal": normal, "wrote": len(chg), "touched_undo": touched,
                              "keys": u.num_keys if u else 0,
+                             "fsbs": u.fs_block_size if u else None,
                              "msg": (r.etext or r.text)[-160:] if not normal else ""})
         if chg:
             wrote_sets.append((i, step["tool"], chg))
@@ -768,9 +808,12 @@ def run_chain(cx, ch, nsteps=None, pool_dir=None, final=True):
         mm1 = describe_mismatch(mid, before, orig_len, u, ch["offset"], trunc_at)
         if r1.rc != 0 or (mm1 and not mm1["beyond_trunc_only"]):
             res["viol"].append(("C12 undo-of-undo: e2undo -z U2 U did not restore the original "
-                                "(rc %s); offset=%s; differing bytes in %s" %
+                                "(rc %s); offset=%s; image file truncated by an earlier run=%s; "
+                                "differing bytes in %s" %
                                 ("0" if r1.rc == 0 else "non-zero", offc,
-                                 mm_where(mm1) if mm1 else "nothing"), "rc=%s %s" % (r1.rc, mm1)))
+                                 "yes" if trunc_at is not None else "no",
+                                 mm_where(mm1) if mm1 else "nothing"),
+                                "rc=%s %s err=%s" % (r1.rc, mm1, r1.etext[-200:])))
         else:
             u2 = parse_undo(cx.U2)
             r2 = run.run([cx.b.tool("e2undo")] + e2undo_opts(ch) + [cx.U2, cx.D], env=cx.env,
@@ -840,10 +883,10 @@ def mismatch_key(ch, res, p, mode):
         if kprev and kprev % (ub // 16 - 1) == 0 and sr.get("touched_undo"):
             extra += "; culprit reopened an undo file whose last key block was exactly full"
     return ("C12 %s: device differs from the original after e2undo; culprit=%s%s; offset=%s; "
-            "fs-block-size-changed-in-chain=%s; differing bytes in %s" %
+            "undo-header-fs-block-size-changed-by=%s; differing bytes in %s" %
             ("chain" if mode == "exact" else "chain with failed last run", step["tool"],
              " (wrote without touching its -z undo file)" if unrec else "", offc,
-             "yes" if len(res.get("fsbs") or []) > 1 else "no", mm_where(mm))) + extra
+             hdr_bs_change(res.get("steps") or []), mm_where(mm))) + extra
 
 
 def w_chain(arg):
@@ -866,7 +909,7 @@ def w_chain(arg):
                 res["viol"].append((TRUNC_KEY % "chain", "a prefix of this chain; steps %s" % (
                     [(s_["tool"], s_["op"], s_.get("size", "")) for s_ in ch["steps"]])))
             # one chain, one root cause: keep only the located mismatch (and -n findings)
-            res["viol"] = [v_ for v_ in res["viol"] if "e2undo -n" in v_[0] or "truncated" in v_[0]]
+            res["viol"] = [v_ for v_ in res["viol"] if "e2undo -n" in v_[0] or "truncated the image file" in v_[0]]
             res["viol"].append((key, "minimal failing prefix: %d of %d steps %s; mismatch %s; "
                                      "undo=%s" % (p, len(ch["steps"]),
                                                   [(s["tool"], s["op"], s.get("args") or
@@ -923,14 +966,20 @@ def w_abend(arg):
             UX = cx.U
         orig_len = len(before)
         min_len = orig_len
+        records = []
         for step in prefix:
             if step.get("extend") and os.path.getsize(cx.D) < step["extend"]:
                 os.truncate(cx.D, step["extend"])
+            d0 = _read(cx.D)
             r = run.run(step_argv(cx, ch, step, UX), env=cx.env, timeout=180)
             if r.timed_out:
                 res["inconclusive"] = "timeout"
                 return res
             min_len = min(min_len, os.path.getsize(cx.D))
+            up = parse_undo(UX, verify=False)
+            records.append({"normal": r.sig == 0 and r.rc in NORMAL_RC[step["tool"]],
+                            "wrote": _read(cx.D) != d0, "fsbs": up.fs_block_size if up else None,
+                            "tool": step["tool"], "rc": r.rc})
         if final.get("extend") and os.path.getsize(cx.D) < final["extend"]:
             os.truncate(cx.D, final["extend"])
         mode = ch["ab_mode"]
@@ -987,6 +1036,9 @@ def w_abend(arg):
         uh1 = _sha(_read(UX)) if os.path.exists(UX) and os.path.getsize(UX) else None
         untouched = uh1 == uh0 and _read(cx.D) != dev0
         u = parse_undo(UX)
+        records.append({"normal": False, "wrote": _read(cx.D) != dev0,
+                        "fsbs": u.fs_block_size if u else None, "tool": final["tool"], "rc": r.rc})
+        res["records"] = records
         if u is None or not u.num_keys:
             # nothing recorded yet: nothing may have been written
             mm = describe_mismatch(_read(cx.D), before, orig_len, None, ch["offset"],
@@ -1008,6 +1060,9 @@ def w_abend(arg):
                                 tag="(%s, %s) " % (mode if mode == "sim" else "kill@" + ch["ab_watch"],
                                                    final["tool"]),
                                 trunc_at=min_len if min_len < orig_len else None)
+        if info.get("mismatch"):
+            # a wrong restore also defeats the marking; report the root cause only
+            v = [v_ for v_ in v if "not marked as needing a check" not in v_[0]]
         res["viol"] += v
         res["info"] = {k_: info[k_] for k_ in info if k_ != "mismatch"}
         if info.get("timeout"):
@@ -1021,10 +1076,11 @@ def w_abend(arg):
             else:
                 res["viol"].append((
                     "C12 abnormal end (%s%s): device differs from the original beyond s_state/"
-                    "s_checksum after e2undo; offset=%s; differing bytes in %s" %
+                    "s_checksum after e2undo; offset=%s; undo-header-fs-block-size-changed-by=%s; "
+                    "differing bytes in %s" %
                     (final["tool"],
                      " wrote without touching its -z undo file" if untouched else "",
-                     classify_offset(ch, u), mm_where(mm)),
+                     classify_offset(ch, u), hdr_bs_change(records), mm_where(mm)),
                     "mode %s final run %s:%s mismatch %s kill=%s forced=%s undo=%s" %
                     (mode, final["tool"], final["op"], mm, kinfo, info.get("forced"), u.summary())))
         res["nontrivial"] = json.dumps([ch["kind"], ch["base"], res["final"], mode,
@@ -1073,7 +1129,7 @@ def w_damage(arg):
                 hU = _sha(_read(Ud))
                 r0 = run.run([b.tool("e2undo"), "-n", Ud, Dc], env=env, timeout=60)
                 dry = "ok"
-                if _sha(_read(Dc)) != hpost:
+                if os.path.getsize(Dc) != len(post) or _sha(_read(Dc)) != hpost:
                     dry = "device-modified"
                     fresh = False
                     with open(Dc, "wb") as f:
@@ -1082,6 +1138,12 @@ def w_damage(arg):
                 elif _sha(_read(Ud)) != hU:
                     dry = "undo-modified"
             r = run.run([b.tool("e2undo"), Ud, Dc], env=env, timeout=60)
+            if os.path.getsize(Dc) > 4 * len(post) + (1 << 20):
+                # a wild write far beyond the device end: do not try to read it
+                out.append((bit, region, "other", r.rc if not r.sig else -r.sig, dry))
+                os.unlink(Dc)
+                fresh = False
+                continue
             cur = _read(Dc)
             if r.timed_out:
                 out.append((bit, region, "timeout", None, dry))
@@ -1114,8 +1176,8 @@ def w_foreign(arg):
         with open(Dc, "wb") as f:
             f.write(dev)
         r = run.run([b.tool("e2undo"), U, Dc], env=env, timeout=60)
-        cur = _read(Dc)
-        return {"rc": r.rc, "sig": r.sig, "changed": cur != dev, "same_sb": same_sb,
+        changed = os.path.getsize(Dc) != len(dev) or _read(Dc) != dev
+        return {"rc": r.rc, "sig": r.sig, "changed": changed, "same_sb": same_sb,
                 "stale": pool_a == pool_b}
     finally:
         shutil.rmtree(wdir, ignore_errors=True)
@@ -1293,7 +1355,7 @@ def main(tier, seed, replay=None, scale=1.0):
                     continue
                 rep.count("%s_undo_files" % kind)
                 if fr["changed"] or fr["rc"] == 0:
-                    rep.violation("C12 %s undo file (superblock differs from the device) was not "
+                    _viol(rep, "C12 %s undo file (superblock differs from the device) was not "
                                   "refused: rc=%s device %s" %
                                   (kind, fr["rc"], "changed" if fr["changed"] else "unchanged"),
                                   str(fr), replay={"phase": "foreign", "seed": seed, "idx": 0,
@@ -1308,8 +1370,22 @@ def main(tier, seed, replay=None, scale=1.0):
         "mke2fs); tdb_data_size is not set directly (no io driver here)",
         "a run counts as ended normally when its exit status is the tool's success status "
         "(e2fsck: 0-3); otherwise the abnormal-end rule is applied to the restore",
+        "needs-check marking is demanded only when the undo file itself says unfinished (or e2undo "
+        "had to be forced); a killed run that recorded no new block leaves the FINISHED flag of the "
+        "previous run on disk - such cases must restore exactly and are counted, not flagged",
+        "the image file is a regular file: resize2fs may truncate it (keyed separately)",
     ]
     return rep.finish()
+
+
+def _viol(rep, key, what, replay=None):
+    """rep.violation, but print at most 3 unlisted violations per key (all are counted)."""
+    per = rep.extra.setdefault("violations_per_key", {})
+    per[key] = per.get(key, 0) + 1
+    if per[key] <= 3 or rep.match_known(key):
+        return rep.violation(key, what, replay=replay)
+    rep.count("violations_not_printed_same_key")
+    return True
 
 
 def absorb_chain(rep, res, seed, phase):
@@ -1332,7 +1408,8 @@ def absorb_chain(rep, res, seed, phase):
             rep.count("runs_wrote_without_touching_undo_" + s["tool"])
         else:
             rep.count("runs_refused_or_noop_" + s["tool"])
-            rep.add("refusal_messages", s["msg"][-80:])
+            import re
+            rep.add("refusal_messages", re.sub(r"\S*/\S+", "<path>", s["msg"])[-90:])
     rep.add("tool_sets", sorted(tools))
     u = res.get("undo")
     if u:
@@ -1361,7 +1438,7 @@ def absorb_chain(rep, res, seed, phase):
         if key in seen:
             continue
         seen.add(key)
-        rep.violation(key, what, replay=case)
+        _viol(rep, key, what, replay=case)
 
 
 def absorb_abend(rep, res, seed):
@@ -1405,7 +1482,7 @@ def absorb_abend(rep, res, seed):
     for key, what in res["viol"]:
         if key not in seen:
             seen.add(key)
-            rep.violation(key, what, replay=case)
+            _viol(rep, key, what, replay=case)
 
 
 def absorb_damage(rep, seed, pidx, bit, region, dev, rc, dry):
@@ -1419,7 +1496,7 @@ def absorb_damage(rep, seed, pidx, bit, region, dev, rc, dry):
     if dry is not None:
         rep.count("damaged_dryruns")
         if dry != "ok":
-            rep.violation("C12 e2undo -n on a damaged undo file (%s): %s" % (region, dry),
+            _viol(rep, "C12 e2undo -n on a damaged undo file (%s): %s" % (region, dry),
                           "bit %d" % bit, replay=case)
     refused = rc != 0 and dev == "unchanged"
     restored = rc == 0 and dev == "restored"
@@ -1429,7 +1506,7 @@ def absorb_damage(rep, seed, pidx, bit, region, dev, rc, dry):
     if restored and region not in undofmt.MUST_REFUSE:
         rep.count("damage_outside_checksums_restored")
         return
-    rep.violation("C12 damage in %s: e2undo exit %s and device %s" %
+    _viol(rep, "C12 damage in %s: e2undo exit %s and device %s" %
                   (region, "0" if rc == 0 else "non-zero", dev),
                   "bit %d (byte %d) rc=%s" % (bit, bit >> 3, rc), replay=case)
 
